@@ -24,16 +24,36 @@ TRUSTED_BASE = [
 # ---------------------------------------------------------------------------------------------
 # property table: theorem modules, generated tables, correspondence runs (level, group)
 PROPS = {
-    "C01": dict(modules=["Emu8086.Props.C01"], runs=[("l1", "arith")], gen=["Arch"],
+    "C01": dict(modules=["Emu8086.Props.C01"], runs=[("l1", "arith"), ("l2", "arith")], gen=["Arch"],
                 rule="L1: every byte operand pair x 4+ flag words for ADD/ADC/SUB/SBB/CMP, every byte value x flag words for INC/DEC/NEG, "
                      "word operands on the boundary lattice^2 + seeded random pairs; non-trivial = result or flag word differs from the input; "
                      "distinct = distinct request text (hash-sharded, de-duplicated in the driver)"),
-    "C02": dict(modules=["Emu8086.Props.C02"], runs=[("l1", "bits")], gen=["Arch"],
+    "C02": dict(modules=["Emu8086.Props.C02"], runs=[("l1", "bits"), ("l2", "logic+shift")], gen=["Arch"],
                 rule="L1: all 256 byte values x all 256 counts x 2 flag words for the 7 shift/rotate functions; word values (lattice+random) x all 256 counts; "
                      "logic ops on all byte pairs and lattice/random word pairs; non-trivial = result or flags changed"),
-    "C03": dict(modules=["Emu8086.Props.C03"], runs=[("l1", "muldiv")], gen=["Arch"],
+    "C03": dict(modules=["Emu8086.Props.C03"], runs=[("l1", "muldiv"), ("l2", "muldiv")], gen=["Arch"],
                 rule="L1: MUL/IMUL/DIV/IDIV byte forms on (lattice+random AX) x all 256 operands, word forms on lattice triples + random 48-bit triples "
                      "biased to the quotient-overflow boundary; adjusts on AX x {AF,CF}; non-trivial = state changed or divide error"),
+    "C04": dict(modules=["Emu8086.Props.C04"], runs=[("l2", "mov+xfer"), ("l2", "arith+logic+shift+muldiv")], gen=["Arch", "ILiterals"],
+                rule="L2 (Interpreter::parse on a fully specified machine): random lines of the MOV/XCHG/LEA and ALU families over all operand shapes "
+                     "(direct, indirect, based, indexed, based-indexed, +-displacement, segment override, data label) x adversarial registers/segments "
+                     "(lattice values, segments straddling 2^20); memory is a position-dependent pattern, so a read identifies the address used and the "
+                     "full-memory diff shows every write; non-trivial = state or outcome differs from a plain NEXT; distinct = distinct request text"),
+    "C05": dict(modules=["Emu8086.Props.C05"], runs=[("l2", "mov+xfer+stack"), ("l2", "stackseq")], gen=["Arch", "ILiterals"],
+                rule="L2: MOV/XCHG/PUSH/POP/PUSHF/POPF/LAHF/SAHF/XLAT over all operand kinds x adversarial SS:SP (0, 1, FFFFh, top of memory); "
+                     "stackseq = straight-line random interleavings of pushes/pops/moves (length up to 64 quick / 2000 thorough) executed line by line "
+                     "against the model and the reference; non-trivial = more than one instruction or a state change"),
+    "C06": dict(modules=["Emu8086.Props.C06"], runs=[("l2", "jumpx"), ("l2", "jump")], gen=["Arch", "ILiterals", "Jumps"],
+                rule="L2 jumpx: EVERY jump mnemonic of the interpreter x all 32 settings of CF/PF/ZF/SF/OF x 4 settings of the other flag bits "
+                     "(x CX lattice + random for JCXZ/LOOP*); jump: random jumps/calls/rets/ints; non-trivial = outcome other than plain NEXT or CX changed"),
+    "C07": dict(modules=["Emu8086.Props.C07"], runs=[("l2", "string"), ("l2", "rep")], gen=["Arch", "ILiterals"],
+                rule="L2 string: single steps of every string instruction x width x DF x prefix on adversarial DS/ES/SI/DI; rep: the REPEAT protocol "
+                     "driven to completion (the driver's loop) for every mnemonic x width x DF x prefix x CX in 0..64 (+255, 300; thorough also 4095, 32768, 65535), "
+                     "with aliasing DS:SI/ES:DI and runs of equal bytes; non-trivial = CX != 0 or a state change"),
+    "C09": dict(modules=["Emu8086.Props.C09"], runs=[("l2", "all"), ("l2", "malformed")], gen=["Arch", "ILiterals"],
+                rule="L2: every instruction class x adversarial machine states (registers from {0,1,7FFFh,8000h,FFFEh,FFFFh,random}, segments straddling 2^20, "
+                     "counts 0..255, divisors 0/1/-1) with catch_unwind in an overflow-checking build: a PANIC of the real code is a violation; malformed = "
+                     "near-miss lines the assembler never emits (must be a reported error in both); non-trivial = outcome/state differs from plain NEXT"),
 }
 
 def log(*a):
@@ -242,7 +262,7 @@ def load_known_findings(pid):
             if not line:
                 continue
             e = json.loads(line)
-            if e.get("property") == pid or pid in e.get("properties", []):
+            if pid is None or e.get("property") == pid or pid in e.get("properties", []):
                 out.append(e)
     return out
 
@@ -357,7 +377,8 @@ def run_check(pid, tier, seed, replay):
 
     # 5. classify
     kfs = load_known_findings(pid)
-    open_kf = {e["id"]: e for e in kfs if e.get("status") == "open"}
+    open_kf = {e["id"]: e for e in load_known_findings(None) if e.get("status") == "open"}   # every open finding, any property
+    own_kf = {e["id"]: e for e in kfs if e.get("status") == "open"}
     violations = []          # (kind, replay path, suffix)
     unknown_kf = [k for k in total["kf"] if k not in open_kf]
     spec_viol = list(total["diff_spec"])
@@ -446,7 +467,8 @@ def run_check(pid, tier, seed, replay):
         f"diff_spec={len(spec_viol)} wall={ev['wall_s']}s")
     for kid, e in open_kf.items():
         hit = total["kf"].get(kid, 0)
-        log(f"KNOWN-FINDING: property={pid} {kid}: {e.get('what', '')} (hit {hit} times in this run)")
+        if kid in own_kf or hit:
+            log(f"KNOWN-FINDING: property={e.get('property', pid)} {kid}: {e.get('what', '')} (hit {hit} times in this run)")
     for b in broken_obligations[:10]:
         log(f"  broken obligation: {b}")
     for path, suffix in violations:
